@@ -119,6 +119,15 @@ def eval_case(case):
     with common.Scratch("cv13") as sc:
         pr = statecheck.std_project(sc.root)
         hist = statecheck.run_history(pr, rng, case["nruns"])
+        if case.get("foreign_collision"):
+            T = 2_000_000_000
+            pr.cond(["run", "//a:e2", "--again"], timeout=60, clock=[T])           # own: e1 @ T, e2 @ T+1
+            fr = statecheck.std_project(sc.sub("foreign"), name="f")
+            fr.cond(["run", "//c-d:e4"], timeout=60, clock=[T + 1])                  # foreign: e1 @ T+1 (= own e2's), e4 @ T+2
+            fa = os.path.join(sc.root, "foreign.tar.gz")
+            fr.cond(["archive", "-o", fa], timeout=60)
+            rr = pr.cond(["restore", fa], timeout=60)
+            hist.append({"foreign_restore_exit": rr.code})
         added, outside = add_hostile(rng, pr, sc.root)
         outroot = os.path.join(pr.root, "cond-out")
         for mode in case["modes"]:
@@ -210,7 +219,7 @@ def main(tier, n=None):
     cases = []
     for i in range(total):
         modes = rng.choice([["dry", "gc"], ["dry-long", "verbose"], ["gc"], ["verbose", "dry"], ["dry", "gc", "gc"], ["dry-verbose", "gc"], ["dry-verbose", "verbose-long"]])
-        cases.append({"seed": rng.randrange(1 << 30), "nruns": rng.randint(1, 4), "modes": modes})
+        cases.append({"seed": rng.randrange(1 << 30), "nruns": rng.randint(1, 4), "modes": modes, "foreign_collision": rng.random() < 0.3})
     cli.warm()
     res = common.parallel_map(eval_case, cases, timeout=900)
     rep.merge_pool(res, cases)
